@@ -43,6 +43,12 @@ def cases(chk):
         if 2 <= ln <= 40:
             out.append(("bech32enc", "bech32-encode", [D(b)]))
             out.append((None, "bech32m-encode", [D(b)]))
+    # base58check payloads up to the decoder's cap of 200 bytes (201 and more are refused)
+    for ln in ((150, 196, 197, 200, 201) if quick else (101, 150, 190, 195, 196, 197, 198, 199, 200, 201, 202, 204, 205, 250)):
+        for lead in ((b"",) if quick else (b"", b"\x00\x00")):
+            b = lead + rb(rng, ln - len(lead))
+            out.append(("base58chkenc", "base58chk-encode", [D(b)]))
+            out.append(("base58chkdec", "base58chk-decode", [S(btc.base58check_encode(b))]))
     # tagged hashes: long then short in one process (history independence)
     for tag, ln in (("TapLeaf", 300), ("TapLeaf", 5), ("BIP0340/challenge", 96), ("x", 2), ("TapTweak", 64), ("TapTweak", 33), ("a_much_longer_tag_than_usual_0123456789", 40)):
         out.append(("tagged_hash", "tagged-hash", [S(tag), D(rb(rng, ln))]))
@@ -117,6 +123,16 @@ def cases(chk):
                 if 0 <= a_ < 2 ** 256 and 0 <= b2 < 2 ** 256:
                     out.append(("add", "add", [D(a_.to_bytes(32, "little")), D(b2.to_bytes(32, "little")), D(gb)]))
             for a_, b2 in ((a, a), (0, a), (a, 0), (0, g_), (g_, g_), (a, a + 1), (a + 1, a)):
+                out.append(("sub", "sub", [D(a_.to_bytes(32, "little")), D(b2.to_bytes(32, "little")), D(gb)]))
+    # moduli with a single non-zero 32-bit limb (m * 2^(32k)), with operands that need the reduction
+    for k_ in range(8):
+        for m_ in ((1, 2 ** 32 - 1) if quick else (1, 3, 0x80000000, 2 ** 32 - 1)):
+            g_ = m_ << (32 * k_)
+            if g_ < 3: continue
+            gb = g_.to_bytes(32, "little")
+            for a_, b2 in ((g_ - 1, 2), (g_ - 1, g_ - 1)):
+                out.append(("add", "add", [D(a_.to_bytes(32, "little")), D(b2.to_bytes(32, "little")), D(gb)]))
+            for a_, b2 in ((1, 2), (0, g_ - 1)):
                 out.append(("sub", "sub", [D(a_.to_bytes(32, "little")), D(b2.to_bytes(32, "little")), D(gb)]))
     # jacobi symbol
     P = btc.P
